@@ -153,6 +153,27 @@ def run(ctx):
         r1, r2 = Node.is_equal(na, nb), Node.is_equal(nb, na)
         if r1 is not False or r2 is not False:
             fails.append({"case": {"a": a, "edit": f}, "what": f"copy and original still compare equal ({r1}, {r2}) after editing {f} of one node"})
+    # (1b) a copy, an IN-PLACE edit of that copy's dictionaries (re-binding an existing prefix / attribute, as fix_nsmap does),
+    # then a second copy of the untouched original: the second copy compares equal to the original, the edited one does not
+    for _ in range(N // 4):
+        a = rand_tree(rng, maxdepth=rng.choice([1, 2, 3]))
+        impl.reset()
+        na = impl.build(a)
+        first = na.copy()
+        touched = False
+        for x in _walk(first):
+            for which in ("nsmap", "attributes", "extras"):
+                dct = getattr(x, which)
+                for k in list(dct):
+                    if rng.random() < 0.5:
+                        dct[k] = "rebound-in-place"; touched = True
+        second = na.copy()
+        extra += 1
+        r1, r2 = Node.is_equal(na, second), Node.is_equal(second, na)
+        if r1 is not True or r2 is not True:
+            fails.append({"case": {"a": a, "copy_edit_copy": True}, "what": f"a fresh deep copy does not compare equal to its original after an earlier copy was edited in place: {r1}, {r2}"})
+        elif touched and (Node.is_equal(na, first) is not False or Node.is_equal(first, na) is not False):
+            fails.append({"case": {"a": a, "copy_edit_copy": True}, "what": "a copy whose dictionaries were re-bound in place still compares equal to the original"})
     # (3) distinct objects that carry the SAME id strings (what loading one JSON document twice produces): ids are not compared
     for _ in range(N // 4):
         a = rand_tree(rng, maxdepth=rng.choice([1, 2, 3]))
